@@ -27,6 +27,7 @@ const (
 	bCloseFD   = "closefd"     // closes the socket without registering, lingers
 	bCfgFail   = "cfgfail"     // fails Configure
 	bCfgHang   = "cfghang"     // never answers Configure (nri's request timeout), lingers until killed
+	bBadMask   = "badmask"     // speaks ttrpc itself: registers, answers Configure asking for events the runtime does not know (variant K)
 	bSyncFail  = "syncfail"    // fails Synchronize
 	bSyncHang  = "synchang"    // never answers Synchronize (request timeout), lingers until killed
 	bSyncClose = "syncclose"   // closes its connection instead of answering Synchronize, keeps running
@@ -71,7 +72,7 @@ type Plugin struct {
 
 func (p Plugin) hasK() bool {
 	switch p.Behav {
-	case bExit, bDie, bDieAfter, bLinger, bCloseAt, bHang:
+	case bExit, bBadMask, bDie, bDieAfter, bLinger, bCloseAt, bHang:
 		return true
 	}
 	return false
@@ -113,7 +114,7 @@ func (p Plugin) File() string { return p.Idx + "-" + p.Base() }
 // reachesConfigure: the process registers and is sent Configure.
 func (p Plugin) reachesConfigure() bool {
 	switch p.Behav {
-	case bOK, bCfgFail, bCfgHang, bSyncFail, bSyncHang, bSyncClose, bDie, bDieAfter, bLinger, bCloseAt, bHang:
+	case bOK, bCfgFail, bCfgHang, bBadMask, bSyncFail, bSyncHang, bSyncClose, bDie, bDieAfter, bLinger, bCloseAt, bHang:
 		return true
 	}
 	return false
@@ -172,8 +173,15 @@ type C18Case struct {
 	// answer Configure) ahead of a healthy one, whose runtime-side waits add up to more than
 	// the 5 s a stub-based plugin itself allows for its registration.
 	RegTimeoutMs int `json:"reg_timeout_ms,omitempty"`
+	// ReqTimeoutMs overrides nri's request timeout for this case (0: 1 s). Cases with a
+	// multi-megabyte synchronization state use 5 s: one such Synchronize takes ≈ 100 ms here.
+	ReqTimeoutMs int `json:"req_timeout_ms,omitempty"`
 	SyncPods     int `json:"sync_pods,omitempty"`
 	SyncCtrs     int `json:"sync_ctrs,omitempty"`
+	// SyncCtrKiB: every container handed out by the runtime's SyncFn carries an annotation of
+	// that many KiB (0: none). ttrpc messages are limited to 4 MiB: 19 x 200 KiB stays just
+	// below, 40 x 200 KiB is well above and has to be sent to each plugin in several messages.
+	SyncCtrKiB int `json:"sync_ctr_kib,omitempty"`
 	// SyncFn is what the runtime's own synchronization function does during Start:
 	// "" succeeds; "fail_before" returns an error without calling nri's plugin-sync callback
 	// (listing pods failed); "fail_after" calls the callback and then returns an error
@@ -192,6 +200,9 @@ type C18Case struct {
 	PluginPath string `json:"plugin_path,omitempty"`
 	ConfPath   string `json:"conf_path,omitempty"`
 }
+
+// nBadMasks is the number of invalid event masks the probe knows (cmd/probeplugin badMasks).
+const nBadMasks = 7
 
 var pathShapes = []string{"", "", "", "symlink", "symlink2", "symparent", "slash", "dots", "relative"}
 
@@ -256,6 +267,13 @@ func genC18(t *rapid.T) C18Case {
 	sleepers, hangers := 0, 0
 	cfgHangers := 0
 	closeK := 0
+	// the size of the state the runtime hands out at synchronization; with a big state the
+	// request timeout is raised for the case and no plugin that runs into it is drawn
+	syncState := rapid.SampledFrom([]string{"small", "small", "above", "small", "below", "small", "above", "small"}).Draw(t, "sync_state")
+	if syncState != "small" {
+		c.ReqTimeoutMs = 5000
+		hangers, cfgHangers = 1, 1
+	}
 	// stacked waits (≈ 6 s per case, hence rare): three or four plugins that never register /
 	// never answer Configure with the lowest indices, healthy ones behind them
 	// Only in the thorough tier (the quick tier's sweep has one such case): probability 2^-5
@@ -267,6 +285,7 @@ func genC18(t *rapid.T) C18Case {
 	}
 	if stack {
 		c.RegTimeoutMs = 2000
+		c.ReqTimeoutMs, syncState = 0, "small" // the stack's waits are counted in default request timeouts
 		shape := rapid.SampledFrom([][]string{
 			{bSleep, bSleep, bSleep},
 			{bSleep, bSleep, bCfgHang, bCfgHang},
@@ -307,7 +326,7 @@ func genC18(t *rapid.T) C18Case {
 			p.Stem, p.Behav, p.K, p.Garbage = src.Idx+"-"+src.Stem, src.Behav, src.K, src.Garbage
 		} else {
 			p.Stem = rapid.SampledFrom(stemPool).Draw(t, "stem")
-			pool := []string{bOK, bOK, bOK, bOK, bOK, bOK, bExit, bExit, bCloseFD, bCfgFail, bSyncFail, bSyncFail, bSyncClose, bDie, bDie, bDieAfter, bDieAfter, bLinger, bLinger, bCloseAt, bCloseAt, bCloseAt, bGarbage}
+			pool := []string{bOK, bOK, bOK, bOK, bOK, bOK, bExit, bExit, bCloseFD, bCfgFail, bSyncFail, bSyncFail, bSyncClose, bBadMask, bBadMask, bDie, bDie, bDieAfter, bDieAfter, bLinger, bLinger, bCloseAt, bCloseAt, bCloseAt, bGarbage}
 			if sleepers == 0 {
 				pool = append(pool, bSleep)
 			}
@@ -315,7 +334,7 @@ func genC18(t *rapid.T) C18Case {
 				pool = append(pool, bHang)
 			}
 			if cfgHangers == 0 && hangers == 0 {
-				pool = append(pool, bCfgHang, bSyncHang) // at most one request-timeout plugin per ordinary case
+				pool = append(pool, bCfgHang) // at most one request-timeout plugin per ordinary case
 			}
 			if stackBase > 0 && i == stackBase {
 				pool = []string{bOK} // at least one healthy plugin behind the stack
@@ -329,6 +348,8 @@ func genC18(t *rapid.T) C18Case {
 			case bCfgHang, bSyncHang:
 				cfgHangers++
 				hangers++
+			case bBadMask:
+				p.K = rapid.IntRange(0, nBadMasks-1).Draw(t, "badmask")
 			case bExit:
 				p.K = rapid.SampledFrom([]int{0, 0, 1, 7}).Draw(t, "status")
 			case bGarbage:
@@ -401,9 +422,9 @@ func genC18(t *rapid.T) C18Case {
 			}
 		}
 		if len(healthy) > 0 {
-			kinds := []string{bSyncFail, bSyncFail, bSyncClose}
+			kinds := []string{bSyncFail, bSyncFail, bSyncClose, bSyncFail, bSyncClose}
 			if hangers == 0 {
-				kinds = append(kinds, bSyncHang)
+				kinds = append(kinds, bSyncHang) // costs a request timeout
 			}
 			kind := rapid.SampledFrom(kinds).Draw(t, "sync_kind")
 			pos := healthy[rapid.IntRange(0, len(healthy)-1).Draw(t, "sync_behind")]
@@ -548,6 +569,12 @@ func genC18(t *rapid.T) C18Case {
 	}
 	c.SyncPods = rapid.IntRange(0, 3).Draw(t, "syncpods")
 	c.SyncCtrs = rapid.IntRange(0, 3).Draw(t, "syncctrs")
+	switch syncState {
+	case "below":
+		c.SyncCtrs, c.SyncCtrKiB = rapid.IntRange(17, 19).Draw(t, "ctrs_below"), 200
+	case "above":
+		c.SyncCtrs, c.SyncCtrKiB = rapid.SampledFrom([]int{22, 40, 40, 60}).Draw(t, "ctrs_above"), 200
+	}
 	c.StopAfter = rapid.SampledFrom([]string{"0", "0", "", "", "0", "1ms", "20ms", "500ms"}).Draw(t, "stop_after")
 	if burst {
 		c.StopAfter = rapid.SampledFrom([]string{"0", "0", "1ms"}).Draw(t, "stop_after_burst")
@@ -580,7 +607,7 @@ func validate(c C18Case) error {
 			return fmt.Errorf("bad stem %q", p.Stem)
 		}
 		switch p.Behav {
-		case bOK, bExit, bCloseFD, bCfgFail, bSyncFail, bSyncClose, bDie, bDieAfter, bLinger, bCloseAt, bGarbage:
+		case bOK, bExit, bCloseFD, bCfgFail, bBadMask, bSyncFail, bSyncClose, bDie, bDieAfter, bLinger, bCloseAt, bGarbage:
 		case bCfgHang, bSyncHang:
 			cfgHangers++
 		case bSleep:
@@ -590,7 +617,7 @@ func validate(c C18Case) error {
 		default:
 			return fmt.Errorf("unknown behaviour %q", p.Behav)
 		}
-		if p.hasK() && p.K < 0 || (p.Behav != bExit && p.hasK() && p.K < 1) {
+		if p.hasK() && p.K < 0 || (p.Behav != bExit && p.Behav != bBadMask && p.hasK() && p.K < 1) {
 			return fmt.Errorf("bad k %d", p.K)
 		}
 		if p.Mode&0o111 == 0 || p.Mode&^0o777 != 0 {
@@ -600,6 +627,9 @@ func validate(c C18Case) error {
 			return fmt.Errorf("duplicate name %q", p.File())
 		}
 		names[p.File()] = true
+	}
+	if c.ReqTimeoutMs != 0 && (c.ReqTimeoutMs < 500 || c.ReqTimeoutMs > 10000) {
+		return fmt.Errorf("request timeout %d ms out of range", c.ReqTimeoutMs)
 	}
 	if c.RegTimeoutMs != 0 && (c.RegTimeoutMs < 500 || c.RegTimeoutMs > 4000) {
 		return fmt.Errorf("registration timeout %d ms out of range", c.RegTimeoutMs)
@@ -679,6 +709,9 @@ func validate(c C18Case) error {
 	}
 	if _, ok := stopDelays[c.StopAfter]; !ok {
 		return fmt.Errorf("unknown stop_after %q", c.StopAfter)
+	}
+	if c.SyncPods < 0 || c.SyncPods > 10 || c.SyncCtrs < 0 || c.SyncCtrs > 80 || c.SyncCtrKiB < 0 || c.SyncCtrKiB > 1024 || c.SyncCtrs*c.SyncCtrKiB > 16*1024 {
+		return fmt.Errorf("synchronization state out of range")
 	}
 	if len(c.Exts) > 8 {
 		return fmt.Errorf("too many external plugins")
